@@ -98,6 +98,7 @@ void orc_c07_api(const ApiRec &r, const Frame &f, const std::string &snap0, cons
 void orc_c09_api(const ApiRec &r, const Frame &f, const std::string &snap0, const std::string &snap1);
 void orc_c15_api(const ApiRec &r, const Frame &f, const std::string &snap0, const std::string &snap1);
 void orc_c18_api(const ApiRec &r, const Frame &f, const std::string &snap0, const std::string &snap1);
+void orc_tokens_api(const ApiRec &r, const Frame &f);
 void orc_counts_checkpoint();
 
 void orc_api_exit(const ApiRec &r, const Frame &f, const std::string &snap0, const std::string &snap1) {
@@ -142,6 +143,7 @@ void orc_api_exit(const ApiRec &r, const Frame &f, const std::string &snap0, con
     if (on("C09")) orc_c09_api(r, f, snap0, snap1);
     if (on("C15")) orc_c15_api(r, f, snap0, snap1);
     if (on("C18")) orc_c18_api(r, f, snap0, snap1);
+    if (on("C13") || on("C15") || on("C16") || on("C17") || on("C18")) orc_tokens_api(r, f);
 }
 
 // start/stop callback counts and running-module count, evaluated when no transition is in flight
